@@ -205,24 +205,27 @@ func checkC02(r *Run) {
 }
 
 // checkMintBurn verifies the shape of MintCoins / BurnCoins.
+// mintBurnRule is the rule id checkMintBurn reports under (C02-R3 by default; C10 and C07 share the instances).
+var mintBurnRule = "C02-R3"
+
 func checkMintBurn(r *Run, f *ssa.Function, name, balOp, supOp, perm string) {
 	P := r.P
-	bal := r.oneCall("C02-R3", name, f, bankK+balOp)
-	sup := r.oneCall("C02-R3", name, f, "x/auth/exported.SupplyI."+supOp)
-	set := r.oneCall("C02-R3", name, f, bankK+"SetSupply")
+	bal := r.oneCall(mintBurnRule, name, f, bankK+balOp)
+	sup := r.oneCall(mintBurnRule, name, f, "x/auth/exported.SupplyI."+supOp)
+	set := r.oneCall(mintBurnRule, name, f, bankK+"SetSupply")
 	if bal == nil || sup == nil || set == nil {
 		return
 	}
 	bt := P.callTerm(bal).String()
 	want := bankK + balOp + "(param:k, param:ctx, " + modAddr + ", param:amt)"
-	r.Check(bt == want, "C02-R3", name+"/balance-side", P.InstrPos(bal), bt, "balance side is "+bt+" ; required "+want)
+	r.Check(bt == want, mintBurnRule, name+"/balance-side", P.InstrPos(bal), bt, "balance side is "+bt+" ; required "+want)
 	st := P.callTerm(sup).String()
 	wantS := "x/auth/exported.SupplyI." + supOp + "(" + bankK + "GetSupply(param:k, param:ctx), param:amt)"
-	r.Check(st == wantS, "C02-R3", name+"/supply-side", P.InstrPos(sup), st, "supply side is "+st+" ; required "+wantS)
+	r.Check(st == wantS, mintBurnRule, name+"/supply-side", P.InstrPos(sup), st, "supply side is "+st+" ; required "+wantS)
 	tt := P.callTerm(set).String()
 	wantT := bankK + "SetSupply(param:k, param:ctx, " + wantS + ")"
-	r.Check(tt == wantT, "C02-R3", name+"/supply-written", P.InstrPos(set), tt, "SetSupply receives "+tt+" ; required "+wantT)
-	r.requireAtoms("C02-R3", name+"/SetSupply", set, P.Guards(set, 0), []req{
+	r.Check(tt == wantT, mintBurnRule, name+"/supply-written", P.InstrPos(set), tt, "SetSupply receives "+tt+" ; required "+wantT)
+	r.requireAtoms(mintBurnRule, name+"/SetSupply", set, P.Guards(set, 0), []req{
 		{"balance-op-succeeded", `^isnil\(` + q(want+"#1") + `\)$`},
 	})
 	r.requireAtoms("C02-R4", name+"/balance-write", bal, P.Guards(bal, 0), []req{
@@ -232,7 +235,7 @@ func checkMintBurn(r *Run, f *ssa.Function, name, balOp, supOp, perm string) {
 	// every success return happens after the supply write
 	for i, ret := range P.successReturns(f, 0, "nil") {
 		ok := Precedes(set, ret)
-		r.Check(ok, "C02-R3", fmt.Sprintf("%s/success-return#%d/after-SetSupply", name, i), P.InstrPos(ret), "success only after the supply was written", name+" can return success without writing the supply record")
+		r.Check(ok, mintBurnRule, fmt.Sprintf("%s/success-return#%d/after-SetSupply", name, i), P.InstrPos(ret), "success only after the supply was written", name+" can return success without writing the supply record")
 	}
 }
 
